@@ -37,13 +37,13 @@ type V struct {
 	O    []Member
 }
 
-func NullV() V          { return V{Kind: Null} }
-func BoolV(b bool) V    { return V{Kind: Bool, B: b} }
-func IntV(n int64) V    { return V{Kind: Num, N: fmt.Sprint(n)} }
-func NumV(s string) V   { return V{Kind: Num, N: s} }
-func StrV(s string) V   { return V{Kind: Str, S: s} }
-func ArrV(xs ...V) V    { return V{Kind: Arr, A: append([]V{}, xs...)} }
-func ObjV(ms ...Member) V { return V{Kind: Obj, O: append([]Member{}, ms...)} }
+func NullV() V               { return V{Kind: Null} }
+func BoolV(b bool) V         { return V{Kind: Bool, B: b} }
+func IntV(n int64) V         { return V{Kind: Num, N: fmt.Sprint(n)} }
+func NumV(s string) V        { return V{Kind: Num, N: s} }
+func StrV(s string) V        { return V{Kind: Str, S: s} }
+func ArrV(xs ...V) V         { return V{Kind: Arr, A: append([]V{}, xs...)} }
+func ObjV(ms ...Member) V    { return V{Kind: Obj, O: append([]Member{}, ms...)} }
 func M(k string, v V) Member { return Member{K: k, V: v} }
 
 // Parse reads exactly one JSON value, keeping member order and duplicates.
